@@ -427,6 +427,13 @@ class Gen:
             return False
         if kw:
             s["kw"] = kw
+        # spelling (C11 inside the history checks): operators / methods must behave like the library function
+        if not kw and s["f"] in ("add", "subtract", "multiply", "divide", "matmul", "negative", "positive", "power") \
+                and r.random() < self.p.get("p_operator", 0.3):
+            s["sp"] = "op"
+        elif s["f"] in ("sum", "mean", "prod", "max", "min", "var") and "constant" not in kw \
+                and r.random() < self.p.get("p_operator", 0.3):
+            s["sp"] = "method"
         ok = self.emit(s, const=self.res_const(ops, kw))
         if not ok:
             pass
@@ -888,9 +895,9 @@ PROFILES = {
                 max_steps=8, backward=False, p_const_leaf=0.2, p_kw_const_view=0.08, p_kw_const_out=0.15,
                 inplace=["setitem", "setitem", "aug", "uout", "setshape"], w_misc=0.08, misc=["fail"]),
     "c05": dict(p_forder_leaf=0.25, functional=["bin", "bin", "un", "red", "matmul", "gathercopy"], w_func=0.35, w_view=0.3, w_inplace=0.35,
-                max_leaves=2, max_steps=8, p_const_leaf=0.15),
+                max_leaves=2, max_steps=8, p_const_leaf=0.15, w_misc=0.08, misc=["fail"]),
     "c06": dict(p_forder_leaf=0.25, functional=["bin", "un", "red"], w_func=0.4, w_view=0.6, w_inplace=0.0, max_leaves=2, max_steps=7,
-                p_const_leaf=0.0),
+                p_const_leaf=0.0, w_misc=0.08, misc=["copy"], max_epochs=2),
     "c09": dict(functional=["bin", "bin", "un", "red", "matmul"], w_func=0.5, w_view=0.25, w_inplace=0.25, max_leaves=2,
                 max_steps=5, max_epochs=2, max_terminals=3, between_steps=3, p_const_leaf=0.15, w_misc=0.1,
                 misc=["clear", "nullgrad"], p_clear_instead=0.2, inplace=["setitem", "setitem", "aug", "uout", "setshape"]),
